@@ -512,6 +512,8 @@ static Token *paste(Token *lhs, Token *rhs) {
   Token *tok = tokenize(new_file(lhs->file->name, lhs->file->file_no, buf));
   if (tok->next->kind != TK_EOF)
     error_tok(lhs, "pasting forms '%s', an invalid token", buf);
+  tok->at_bol = lhs->at_bol;
+  tok->has_space = lhs->has_space;
   return tok;
 }
 
@@ -534,6 +536,8 @@ static Token *subst(Token *tok, MacroArg *args) {
       if (!arg)
         error_tok(tok->next, "'#' is not followed by a macro parameter");
       cur = cur->next = stringize(tok, arg->tok);
+      cur->at_bol = tok->at_bol;
+      cur->has_space = tok->has_space;
       tok = tok->next->next;
       continue;
     }
